@@ -169,6 +169,24 @@ let () =
              let fs = files_of st in
              Printf.printf "%s cks=%s from=%s\n" id (show_names (checkpoint_files is_ck fs))
                (match files_from_last_checkpoint is_ck fs with Some l -> show_names l | None -> "notfound")
+           | "U" ->
+             (* <id> U <parse 0|1> <scheme> <fmt: ~ | hex> <flag> <isdir 0|1> <tree> *)
+             let parse_ok = next_int () = 1 in
+             let scheme = next_bytes () in
+             let fmt = (match next () with "~" -> None | h -> Some (bytes_of_string (unhex h))) in
+             let flag = next_bytes () in
+             let is_dir = next_int () = 1 in
+             let n = next_int () in
+             let t = Stdlib.List.init n (fun _ -> ()) |> Stdlib.List.map (fun () ->
+               let p = String.split_on_char '/' (next ()) |> Stdlib.List.map (fun h -> bytes_of_string (unhex h)) in
+               let k = next () in
+               (p, if k = "D" then KDir else KFile (bytes_of_string (unhex (String.sub k 1 (String.length k - 1)))))) in
+             Printf.printf "%s out=%s\n" id (match check_dir_url hs parse_ok scheme fmt flag is_dir t with
+               | PErrParse -> "parse" | PErrOpen -> "openerr" | PErrNotExist -> "notexist" | PCloud -> "cloud"
+               | PValidated (TV VOk) -> "ok"
+               | PValidated (TV (VChecksum _)) -> "cs"
+               | PValidated (TV VNotFound) -> "notfound"
+               | PValidated _ -> "other")
            | k -> failwith ("fmt case " ^ k))
         | m -> failwith ("mode " ^ m)
       end
